@@ -12,7 +12,7 @@
              outstanding; after the drop the line settings are the original ones and the closing
              sequence has arrived *)
 From Coq Require Import List NArith Arith Bool.
-From SNT Require Import Base.Outcome Base.Report IO.IOQueue IO.TermIO IO.PollLoop.
+From SNT Require Import Base.Outcome Base.Report IO.IOQueue IO.TermIO IO.PollLoop IO.PollLoopTee.
 Import ListNotations.
 Local Open Scope N_scope.
 
@@ -23,6 +23,10 @@ Inductive dur := DNone | DWake (d : N) | DWinch (d : N).
 Inductive act :=
 | AWake (n : N) | AIn (toks : list N) | AWinch | ATerm | AWrite (len : N) | APause (b : bool) | AHup
 | AFault (n : N)     (* the next n writes to the tty fail with EAGAIN although select reports it writable *)
+| ATee (results : list bool)
+                     (* duplicate_output is in use; one result per poll of dispose's wait loop (false = the copy
+                        fails in that poll), as far as the harness can tell: a healthy file never fails, a failing
+                        one fails in the first poll when more than its 8 KiB buffer is still to be sent *)
 | ASettled           (* end of a generated script, after more zero-timeout polls than events could still come:
                         nothing may be owed any more (no move of the model) *)
 | APoll (tmo : option N) (send pending elapsed : N) (during : dur) (spins : N).
@@ -134,7 +138,7 @@ Fixpoint model_run (s : st) (paused : bool) (acts : list act) (obs : list pobs) 
           model_run (upd_io s (mkT (write (tq t) (N.iter len (cons 0) [])) (tty t) (sent t)))
                     paused rest obs
       | AHup => model_run (arrive s MHup) paused rest obs
-      | AFault _ | ASettled => model_run s paused rest obs
+      | AFault _ | ASettled | ATee _ => model_run s paused rest obs
       | APause b => model_run s b rest obs
       | APoll tmo send pending _ du spins =>
           match obs with
@@ -164,6 +168,13 @@ Definition dispose_sched (paused : bool) : list (round_env N) :=
 Definition ends_with (l suffix : list N) : bool :=
   nlist_eqb (skipn (length l - length suffix) l) suffix.
 
+Fixpoint tee_of (acts : list act) : option (list bool) :=
+  match acts with
+  | [] => None
+  | ATee l :: _ => Some l
+  | _ :: rest => tee_of rest
+  end.
+
 Definition model_case (acts : list act) (obs : list pobs) (e : ekind) (restored closing : bool) : bool :=
   match model_run (opened 7 8) false acts obs with
   | None => false
@@ -171,7 +182,7 @@ Definition model_case (acts : list act) (obs : list pobs) (e : ekind) (restored 
       match e with
       | EHup => true      (* the master is gone: neither settings nor delivery can be observed *)
       | _ =>
-          match dispose is_da closing_seq 40 s (dispose_sched (match e with EDropPaused => true | _ => false end)) with
+          match dispose_t is_da closing_seq 40 (tee_of acts) s (dispose_sched (match e with EDropPaused => true | _ => false end)) with
           | None => false
           | Some s' =>
               Bool.eqb restored (cur s' =? saved s')
@@ -218,7 +229,7 @@ Fixpoint spec_run (o : outstanding) (hup : bool) (acts : list act) (obs : list p
       | ATerm => spec_run (mkO (o_wake o) (o_may o) (o_winch o) (o_wmay o) true (o_keys o)) hup rest obs
       | AWrite _ | APause _ => spec_run o hup rest obs
       | AHup => spec_run o true rest obs
-      | AFault _ => spec_run o hup rest obs
+      | AFault _ | ATee _ => spec_run o hup rest obs
       | ASettled => (nothing_outstanding o || hup) && spec_run o hup rest obs
       | APoll tmo _ _ elapsed du spins =>
           let owed_at_entry := o_wake o in
